@@ -316,13 +316,20 @@ pub fn gen_layers_params(raw: &RawCase, p: &Profile) -> (Vec<LayerSpec>, DevPara
     };
     let max_bs_bits = {
         let hi = std::cmp::min(12, cb);
-        match s.weighted(&[50, 17, 17, 16]) {
-            k => std::cmp::min(9 + k as u8, hi),
-        }
+        let k = s.weighted(&[50, 17, 17, 16]);
+        std::cmp::min(9 + k as u8, hi)
     };
-    let params = gen_params(&mut s, cb, max_bs_bits, p.default_cache_pct);
-    let vsize = gen_vsize(&mut s, cb, max_bs_bits, p);
+    // chain shape first: every layer is opened with the same parameters, so block size and
+    // custom slice sizes must not exceed the smallest cluster size of the chain
     let depth = s.weighted(&p.depth_weights);
+    let mut bcbs = Vec::new();
+    for _ in 0..depth {
+        let bcb = if s.chance(3, 5) { cb } else { std::cmp::min(9 + s.pick(4) as u8, p.max_cluster_bits) };
+        bcbs.push(std::cmp::max(bcb, max_bs_bits));
+    }
+    let min_cb = bcbs.iter().copied().fold(cb, std::cmp::min);
+    let params = gen_params(&mut s, min_cb, max_bs_bits, p.default_cache_pct);
+    let vsize = gen_vsize(&mut s, cb, max_bs_bits, p);
     let mut layers = Vec::new();
     if depth == 0 && s.chance(p.formatted_pct, 100) {
         layers.push(LayerSpec::Formatted {
@@ -335,10 +342,7 @@ pub fn gen_layers_params(raw: &RawCase, p: &Profile) -> (Vec<LayerSpec>, DevPara
         layers.push(LayerSpec::Built(gen_built(&mut s, &raw.img, cb, ro, version, vsize, 0, p)));
         for l in 1..=depth {
             // backing layers: own geometry, size shorter / equal / longer than the top
-            // every layer of a chain is opened with the same block size, which must not
-            // exceed that layer's cluster size
-            let bcb = if s.chance(3, 5) { cb } else { std::cmp::min(9 + s.pick(4) as u8, p.max_cluster_bits) };
-            let bcb = std::cmp::max(bcb, max_bs_bits);
+            let bcb = bcbs[l - 1];
             let bro = s.pick(7) as u8;
             let bver: u8 = if s.chance(1, 5) { 2 } else { 3 };
             let bcs = 1u64 << bcb;
@@ -474,7 +478,8 @@ pub fn decode_seq(raw: &RawCase, p: &Profile) -> Decoded {
             5 => Op::Shrink,
             _ => {
                 let mut ps = Src::new(&r[1..]);
-                let np = gen_params(&mut ps, cb, max_bs_bits, p.default_cache_pct);
+                let min_cb = layers.iter().map(|l| l.cluster_bits()).min().unwrap_or(cb);
+                let np = gen_params(&mut ps, min_cb, max_bs_bits, p.default_cache_pct);
                 cur = np.clone();
                 Op::Reopen { params: np }
             }
@@ -489,7 +494,15 @@ pub fn decode_seq(raw: &RawCase, p: &Profile) -> Decoded {
             ops,
             sched,
             faults: None,
+            reopen_params: vec![],
         },
         max_bs_bits,
     }
+}
+
+/// Independently drawn legal parameter sets for reopening the chain of `case`
+pub fn gen_reopen_params(extra: &[u16], case: &SeqCase, max_bs_bits: u8, n: usize) -> Vec<DevParams> {
+    let mut s = Src::new(extra);
+    let min_cb = case.layers.iter().map(|l| l.cluster_bits()).min().unwrap_or(9);
+    (0..n).map(|_| gen_params(&mut s, min_cb, max_bs_bits, 20)).collect()
 }
